@@ -298,6 +298,29 @@ def rule_usage_first(ck: Check, repo: Repo) -> None:
             if not ok:
                 r.violation(aq, f"option {m} of {mname} is not declared mutually exclusive",
                             f"declarations for {m}: {decl}", repo.loc(an))
+    # a parameter that is folded into a member of a mutex group (`skip_unrecognised = skip_unrecognised or alias`) IS that
+    # option under another name: it has to be in every group its target is in, or the combination is refused for one
+    # spelling of the option and accepted for the other
+    params = {a.arg for a in an.args.args + an.args.kwonlyargs}
+    for st in ast.walk(an):
+        if isinstance(st, ast.Assign) and len(st.targets) == 1 and isinstance(st.targets[0], ast.Name) and st.targets[0].id in params:
+            tgt = st.targets[0].id
+            others = {n.id for n in ast.walk(st.value) if isinstance(n, ast.Name) and n.id in params and n.id != tgt}
+            for o in sorted(others):
+                groups = [g for g, members in mutexes.items() if tgt in members]
+                inline = [ast.unparse(kwarg(dec, "mutually_exclusive")) for dec in an.decorator_list if isinstance(dec, ast.Call)
+                          and kwarg(dec, "mutually_exclusive") is not None and isinstance(kwarg(dec, "mutually_exclusive"), ast.List)
+                          and tgt in [e.value for e in kwarg(dec, "mutually_exclusive").elts if isinstance(e, ast.Constant)]]
+                r.instance(f"folded:{o}->{tgt}", {"alias": o, "target": tgt, "groups_of_target": groups, "inline_lists_naming_target": inline})
+                for g in groups:
+                    if o not in mutexes[g]:
+                        r.violation(aq, f"parameter {o} is folded into {tgt} but is not a member of {g}",
+                                    f"`{ast.unparse(st)[:70]}`: the other options of {g} ({[m for m in mutexes[g] if m != tgt]}) are refused together with"
+                                    f" --{tgt.replace('_', '-')} and accepted together with --{o.replace('_', '-')}: the usage error is not raised and files are"
+                                    f" written", repo.loc(st))
+                for lst in inline:
+                    if f"'{o}'" not in lst:
+                        r.violation(aq, f"parameter {o} is folded into {tgt} but an inline mutex list names only {tgt}", lst, repo.loc(st))
     mo = repo.func("reuse.cli.common.MutexOption.handle_parse_result")
     ck.analysed_fn("reuse.cli.common.MutexOption.handle_parse_result")
     src = re.sub(r"\s+", " ", ast.unparse(mo))
